@@ -32,6 +32,10 @@ type MapModel struct {
 	FlagF    string          // map.resizing
 	MuF      string          // map.resizeMu
 	CondF    string          // map.resizeCond
+	// StateOwner is the struct type that holds the resize flag, mutex and condition: the map type itself, or a
+	// struct embedded in it by value (resize bookkeeping shared by both map types).
+	StateOwner string
+	FlagCAS    *ssa.Function // helper of StateOwner that performs the flag CAS, when not done in Resize itself
 	AddSize  *ssa.Function
 	AddPlain *ssa.Function
 	SumSize  *ssa.Function
@@ -58,6 +62,7 @@ type Model struct {
 	CacheM    [2]map[string]*ssa.Function
 	CacheCtor [2]*ssa.Function
 	ItemT     [2]string
+	ItemEmb   [2]string // embedded struct of the item type that carries the expiration, if any
 }
 
 var mapAPI = []string{"Load", "Store", "LoadOrStore", "LoadAndStore", "LoadOrCompute", "Compute", "LoadAndDelete", "Delete", "Range", "Clear", "Size"}
@@ -281,8 +286,29 @@ func (m *Model) buildMap(named *types.Named, iface string) *MapModel {
 			}
 			if n, ok := f.Type().(*types.Named); ok && n.Obj().Pkg() != nil && n.Obj().Pkg().Path() == "sync" && n.Obj().Name() == "Cond" {
 				mm.CondF = f.Name()
+				mm.StateOwner = mm.Name
 			}
 		}
+		// resize bookkeeping kept in a struct embedded by value
+		for i := 0; i < st.NumFields() && mm.CondF == ""; i++ {
+			en, ok := st.Field(i).Type().(*types.Named)
+			if !ok || en.Obj().Pkg() != p.Xsync.Pkg {
+				continue
+			}
+			es, ok := en.Underlying().(*types.Struct)
+			if !ok {
+				continue
+			}
+			for j := 0; j < es.NumFields(); j++ {
+				if n, ok := es.Field(j).Type().(*types.Named); ok && n.Obj().Pkg() != nil && n.Obj().Pkg().Path() == "sync" && n.Obj().Name() == "Cond" {
+					mm.CondF = es.Field(j).Name()
+					mm.StateOwner = en.Obj().Name()
+				}
+			}
+		}
+	}
+	if mm.StateOwner == "" {
+		mm.StateOwner = mm.Name
 	}
 	// scan xsync functions for structural anchors
 	for _, f := range p.Funcs {
@@ -301,12 +327,17 @@ func (m *Model) buildMap(named *types.Named, iface string) *MapModel {
 							}
 						}
 					}
-					if a.Owner == mm.Name && op == "CAS" {
+					if a.Owner == mm.StateOwner && op == "CAS" && !IsSyncInternal(a) {
 						mm.FlagF = a.Field
-						if mm.Resize != nil && mm.Resize != f {
-							bad("resize flag CAS in two functions")
+						if rv := f.Signature.Recv(); rv != nil && namedOf(rv.Type()) == mm.StateOwner && mm.StateOwner != mm.Name {
+							// the CAS lives in a helper of the embedded bookkeeping struct: the resize function is its caller on the map type
+							mm.FlagCAS = f
+						} else {
+							if mm.Resize != nil && mm.Resize != f {
+								bad("resize flag CAS in two functions")
+							}
+							mm.Resize = f
 						}
-						mm.Resize = f
 					}
 				}
 				id := CalleeID(x)
@@ -317,14 +348,16 @@ func (m *Model) buildMap(named *types.Named, iface string) *MapModel {
 						arg = mi.X
 					}
 					a := Addr(arg)
-					if a.Owner == mm.Name {
+					if a.Owner == mm.StateOwner {
 						mm.MuF = a.Field
-						mm.Ctor = append(mm.Ctor, f)
+						if mm.StateOwner == mm.Name {
+							mm.Ctor = append(mm.Ctor, f)
+						}
 					}
 				}
 				if id == "(*sync.Cond).Wait" {
 					a := Addr(x.Common().Args[0])
-					if a.Owner == mm.Name {
+					if a.Owner == mm.StateOwner {
 						mm.Wait = f
 					}
 				}
@@ -344,6 +377,33 @@ func (m *Model) buildMap(named *types.Named, iface string) *MapModel {
 				}
 			}
 		})
+	}
+	if mm.FlagCAS != nil && mm.Resize == nil {
+		for _, site := range CallSitesOf(p.Funcs, mm.FlagCAS) {
+			g := site.Parent()
+			for g.Parent() != nil {
+				g = g.Parent()
+			}
+			if rv := g.Signature.Recv(); rv != nil && namedOf(rv.Type()) == mm.Name {
+				if mm.Resize != nil && mm.Resize != g {
+					bad("resize flag CAS helper called from two functions of %s", mm.Name)
+				}
+				mm.Resize = g
+			}
+		}
+	}
+	if mm.StateOwner != mm.Name {
+		// constructors: the functions that allocate the map object
+		for _, f := range p.Funcs {
+			if f.Pkg != p.Xsync || f.Parent() != nil {
+				continue
+			}
+			Instrs(f, func(in ssa.Instruction) {
+				if a, ok := in.(*ssa.Alloc); ok && a.Heap && namedOf(elemOfPtr(a.Type())) == mm.Name {
+					mm.Ctor = append(mm.Ctor, f)
+				}
+			})
+		}
 	}
 	if mm.TableF == "" || mm.FlagF == "" || mm.MuF == "" || mm.CondF == "" {
 		bad("map fields not all found: table=%q flag=%q mu=%q cond=%q", mm.TableF, mm.FlagF, mm.MuF, mm.CondF)
@@ -415,13 +475,13 @@ func (m *Model) buildMap(named *types.Named, iface string) *MapModel {
 				}
 			}
 		}
-		if recv == mm.Name && res.Len() == 1 && len(f.Params) <= 2 {
+		if (recv == mm.Name || recv == mm.StateOwner) && res.Len() == 1 && len(f.Params) <= 2 {
 			if b, ok := res.At(0).Type().(*types.Basic); ok && b.Kind() == types.Bool {
 				Instrs(f, func(in ssa.Instruction) {
 					if c, ok := in.(ssa.CallInstruction); ok {
 						if op, addr, ok := AtomicOp(c); ok && op == "Load" {
 							a := Addr(addr)
-							if a.Owner == mm.Name && a.Field == mm.FlagF {
+							if a.Owner == mm.StateOwner && a.Field == mm.FlagF {
 								mm.InProg = f
 							}
 							if a.Owner == mm.Name && a.Field == mm.TableF {
@@ -710,7 +770,7 @@ func (m *Model) LockEventOfCall(c ssa.CallInstruction) *LockEvent {
 	}
 	ev.Class = "bucket"
 	for _, mm := range m.Maps {
-		if ev.Key == mm.Name+"."+mm.MuF {
+		if ev.Key == mm.StateOwner+"."+mm.MuF {
 			ev.Class = "resize"
 		}
 	}
@@ -723,7 +783,7 @@ func (m *Model) MapOfFunc(f *ssa.Function) *MapModel {
 		f = f.Parent()
 	}
 	for _, mm := range m.Maps {
-		if r := f.Signature.Recv(); r != nil && namedOf(r.Type()) == mm.Name {
+		if r := f.Signature.Recv(); r != nil && (namedOf(r.Type()) == mm.Name || namedOf(r.Type()) == mm.StateOwner) {
 			return mm
 		}
 		for _, g := range []*ssa.Function{mm.Copy, mm.Append, mm.NewTable, mm.AddSize, mm.AddPlain, mm.SumSize, mm.IsEmpty} {
@@ -805,15 +865,26 @@ func (m *Model) buildCache() {
 			continue
 		}
 		hasInt := false
+		emb := ""
 		for i := 0; i < st.NumFields(); i++ {
 			if b, ok := st.Field(i).Type().Underlying().(*types.Basic); ok && b.Kind() == types.Int64 {
 				hasInt = true
 			}
+			// the expiration kept in an embedded one-field struct of this package (shared by both item types)
+			if en, ok := st.Field(i).Type().(*types.Named); ok && st.Field(i).Embedded() && en.Obj().Pkg() == p.Cache.Pkg {
+				if es, ok := en.Underlying().(*types.Struct); ok && es.NumFields() == 1 {
+					if b, ok := es.Field(0).Type().Underlying().(*types.Basic); ok && b.Kind() == types.Int64 {
+						hasInt = true
+						emb = en.Obj().Name()
+					}
+				}
+			}
 		}
 		hasPred := false
-		for i := 0; i < named.NumMethods(); i++ {
-			sig := named.Method(i).Type().(*types.Signature)
-			if sig.Results().Len() == 1 {
+		ms := types.NewMethodSet(types.NewPointer(named))
+		for i := 0; i < ms.Len(); i++ {
+			sig, _ := ms.At(i).Type().(*types.Signature)
+			if sig != nil && sig.Results().Len() == 1 {
 				if b, ok := sig.Results().At(0).Type().(*types.Basic); ok && b.Kind() == types.Bool {
 					hasPred = true
 				}
@@ -823,9 +894,9 @@ func (m *Model) buildCache() {
 			continue
 		}
 		if named.TypeParams() != nil && named.TypeParams().Len() > 0 {
-			m.ItemT[1] = n
+			m.ItemT[1], m.ItemEmb[1] = n, emb
 		} else {
-			m.ItemT[0] = n
+			m.ItemT[0], m.ItemEmb[0] = n, emb
 		}
 	}
 	for i := 0; i < 2; i++ {
@@ -833,6 +904,14 @@ func (m *Model) buildCache() {
 			m.Problems = append(m.Problems, fmt.Sprintf("cache item type of twin %d not found (struct with an int64 expiration and a bool predicate method)", i))
 		}
 	}
+}
+
+// IsItemRecv: name is an item type or the embedded struct that carries an item type's expiration.
+func (m *Model) IsItemRecv(name string) bool {
+	if name == "" {
+		return false
+	}
+	return name == m.ItemT[0] || name == m.ItemT[1] || name == m.ItemEmb[0] || name == m.ItemEmb[1]
 }
 
 // ItemsInvoke recognises a call through the cache's underlying map interface
@@ -852,4 +931,21 @@ func (m *Model) ItemsInvoke(c ssa.CallInstruction) (method string, mm *MapModel,
 		}
 	}
 	return "", nil, false
+}
+
+// IsFlag: the address is the resize flag of this map.
+func (mm *MapModel) IsFlag(a AddrPath) bool {
+	return a.Owner == mm.StateOwner && a.Field == mm.FlagF && mm.FlagF != ""
+}
+
+// IsSyncInternal: the address lies inside a sync.Mutex / sync.Cond value (their own CAS words are not ours).
+func IsSyncInternal(a AddrPath) bool {
+	return a.Owner == "Mutex" || a.Owner == "Cond" || a.Owner == "noCopy"
+}
+
+func elemOfPtr(t types.Type) types.Type {
+	if p, ok := t.Underlying().(*types.Pointer); ok {
+		return p.Elem()
+	}
+	return t
 }
